@@ -27,7 +27,7 @@ From Soy Require Import Model.Bytes Model.Num Model.Values Model.Ast Model.Token
   Model.AstPrint Generated.Tables Spec.ExprSyntax Proofs.ExprParserRules Proofs.LiteralProofs Proofs.ExprParserProofs Proofs.PlaceholderTextProofs.
 From Soy Require Import Model.Outcome Model.MsgId Proofs.MsgIdProofs.
 From Soy Require Import Model.Lexer Model.Parser Proofs.LexPrintMain Proofs.LexParseText Proofs.LexPrintCmd Proofs.PrintCmdText.
-From Soy Require Import Model.RawText Model.Parser Model.AstPrintCmd Spec.CmdSyntax Proofs.CmdRoundtripBase Proofs.CmdRoundtripRules Proofs.CmdRoundtrip Proofs.ExprParserMono.
+From Soy Require Import Model.RawText Model.Parser Model.AstPrintCmd Spec.CmdSyntax Proofs.CmdRoundtripBase Proofs.CmdRoundtripRules Proofs.CmdRoundtrip Proofs.ExprParserMono Proofs.CmdParserStripDefs Proofs.CmdParserStripMain Proofs.CmdRoundtripStrip.
 Open Scope N_scope.
 
 (* Parsing the items of the printed expression gives back the expression itself (positions
@@ -413,3 +413,40 @@ Example C17_plural_roundtrip_nonvacuous :
   exists s, item_list 0 ex_lexq ex_unq parse_expr expr_fuel 60 u_template
               (cst_init (body_toks ex_plural_body ++ [T_ldelim; kw pit_TemplateEnd 0; T_rdelim])) = COk ex_plural_body s.
 Proof. eexists. vm_compute. reflexivity. Qed.
+
+(* ---- the body round trip for the items a scanner really sends.  [body_toks x] carries the node
+   positions and 0 at the items that create no node; the scanner puts the offset of its end on every
+   item.  The command-level parser model (all of Model/Parser.v: itemList, textOrTag, beginTag and every
+   command parser, the nested scanners of data="e" / {css e, x}, placeholderize) does not look at item
+   positions on a successful run (C17_cmd_parser_ignores_positions: two runs from states that agree up
+   to positions both succeed, with trees equal up to positions and final states that agree up to
+   positions; error runs are excluded because errorAt compares the position with the input length).
+   Hence ANY item list with the types and texts of body_toks x ++ "{" u rest is read, from the initial
+   state and under the entry points' budget, as x up to positions. ---- *)
+Theorem C17_cmd_parser_ignores_positions :
+  forall (inlen inlen' : N) (lexq : bstr -> list tok) (unq : bstr -> option bstr) f until its its' x s,
+  map strip_tok its = map strip_tok its' ->
+  item_list inlen lexq unq parse_expr expr_fuel f until (cst_init its) = COk x s ->
+  exists x' s', item_list inlen' lexq unq parse_expr expr_fuel f until (cst_init its') = COk x' s' /\ cps_strip x = cps_strip x'.
+Proof. exact cps_body_expr_fuel. Qed.
+Print Assumptions C17_cmd_parser_ignores_positions.
+
+Theorem C17_parse_body_roundtrip_any_positions :
+  forall (inlen inlen' : N) (lexq : bstr -> list tok) (unq : bstr -> option bstr),
+  (forall s q, go_quote s = Some q -> unq q = Some s) ->
+  forall x until u rest its,
+  wf_body lexq (nameok [] []) false x -> good_until until = true -> one_of (t_typ u) until = true ->
+  map strip_tok its = map strip_tok (body_toks x ++ T_ldelim :: u :: rest) ->
+  exists f0, forall f, (f0 <= f)%nat ->
+    exists x' s', item_list inlen' lexq unq parse_expr expr_fuel f until (cst_init its) = COk x' s' /\ cps_strip x' = cps_strip x.
+Proof. exact body_roundtrip_any_positions. Qed.
+Print Assumptions C17_parse_body_roundtrip_any_positions.
+
+(* non-vacuity: the items of the {plural} example with every position replaced by 7 *)
+Example C17_any_positions_nonvacuous :
+  match item_list 0 ex_lexq ex_unq parse_expr expr_fuel 60 u_template
+          (cst_init (map (fun t => tk (t_typ t) 7 (t_val t)) (body_toks ex_plural_body ++ [T_ldelim; kw pit_TemplateEnd 0; T_rdelim]))) with
+  | COk x' _ => cps_strip x' = cps_strip ex_plural_body /\ x' <> ex_plural_body
+  | _ => False
+  end.
+Proof. vm_compute. split; [reflexivity | discriminate]. Qed.
